@@ -65,12 +65,6 @@ func (h *cbMembership) register() {
 
 	now := time.Now().UnixNano()
 
-	err := h.createIndex(ctx, now)
-	if err != nil {
-		logger.Log.Error("error while create index, err: %v", err)
-		panic(err)
-	}
-
 	h.clusterJoinTime = now
 
 	instance := Instance{
@@ -81,7 +75,7 @@ func (h *cbMembership) register() {
 
 	payload, _ := sonic.Marshal(instance)
 
-	err = UpdateDocument(ctx, h.client.GetMetaAgent(), h.scopeName, h.collectionName, h.id, payload, h.membershipConfig.ExpirySeconds, nil)
+	err := UpdateDocument(ctx, h.client.GetMetaAgent(), h.scopeName, h.collectionName, h.id, payload, h.membershipConfig.ExpirySeconds, nil)
 
 	var kvErr *gocbcore.KeyValueError
 	if err != nil && errors.As(err, &kvErr) && kvErr.StatusCode == memd.StatusKeyNotFound {
@@ -103,6 +97,14 @@ func (h *cbMembership) register() {
 
 	if err != nil {
 		logger.Log.Error("error while register, err: %v", err)
+		panic(err)
+	}
+
+	// the index entry comes last: a monitor of another member that finds an entry without its
+	// instance document would rewrite the index without this instance
+	err = h.createIndex(ctx, now)
+	if err != nil {
+		logger.Log.Error("error while create index, err: %v", err)
 		panic(err)
 	}
 }
